@@ -147,13 +147,6 @@ func (c c09Case) msmScalar(j int) *big.Int {
 	return h.Mod(h, ref.R)
 }
 
-func maxInt(a, b int) int {
-	if a > b {
-		return a
-	}
-	return b
-}
-
 func (c c09Case) pointIndex(j int) int {
 	if c.PointMode == "dup" {
 		return int(c.Seed % msmPoolSize)
